@@ -10,7 +10,10 @@ patch_file="$(readlink -f "$1")"; id="$2"; shift 2
 tier=quick; repotests=0
 while [ $# -gt 0 ]; do case "$1" in --tier) tier="$2"; shift 2;; --repo-tests) repotests=1; shift;; *) shift;; esac; done
 name="$(basename "$patch_file" .patch)"
-tmp="/var/tmp/mut-$name-$$"; mkdir -p "$tmp"
+# unique per invocation: all seeded changes are called patch.diff, and concurrent runs must not share (or delete) a build directory
+case "$name" in patch.diff|patch) name="$(basename "$(dirname "$(readlink -f "$patch_file")")")";; esac
+name="$name-$$"
+tmp="/var/tmp/mut-$name"; mkdir -p "$tmp"
 # the evidence file of the property belongs to runs on the unchanged tree: keep it across the mutant run
 [ -f "$VERIF_ROOT/evidence/$id.json" ] && cp "$VERIF_ROOT/evidence/$id.json" "$tmp/evidence.keep"
 trap '[ -f "$tmp/evidence.keep" ] && cp "$tmp/evidence.keep" "$VERIF_ROOT/evidence/$id.json"; rm -rf "$tmp" "$VERIF_ROOT/build/mut-$name"' EXIT
